@@ -21,6 +21,7 @@ def args():
 
 def do_replay(pid, path):
     import lib
+    path = os.path.abspath(path)       # the replayer runs with the repository as its working directory
     ok, out = lib.replay(pid, path)
     print(out)
     if ok:
